@@ -13,7 +13,8 @@
 From Coq Require Import NArith ZArith List Bool Permutation.
 From KdV Require Import Base.Wrap64 Base.ByteSeq Map.MapModel
      Flat.FlatModel Flat.FlatSpec Flat.FlatProofs
-     Flat.SplitModel Flat.SplitSpec Flat.SplitProofs.
+     Flat.SplitModel Flat.SplitSpec Flat.SplitProofs
+     Flat.DiskSetModel Flat.DiskSetSpec Flat.DiskSetProofs.
 Import ListNotations.
 Local Open Scope N_scope.
 
@@ -149,6 +150,79 @@ Theorem C11_init_malformed_corrupt : forall rd fuel oracle m offs cap segidx fla
   = InitDone ST_CORRUPT {| fm_map := m; fm_offs := offs |}.
 Proof. exact init_loop_malformed. Qed.
 Print Assumptions C11_init_malformed_corrupt.
+
+(** * SADUMP disk sets (sadump.c): the extent array and the extent walk.
+
+    [_partial]: these theorems cover how [open_common] files the page-data
+    extent of each disk under its disk number and how [sadump_read_page] walks
+    the extents; they do not cover the parsing of the SADUMP headers or the
+    computation of a page's position in the set's page data from the bitmap
+    (both are exercised end to end by engine flat-e2e only). *)
+
+(** a position in the page data of the set (the concatenation of the disks'
+    data areas in disk order) is resolved to the disk that holds that byte,
+    at the file position of that byte - for every list of data areas, every
+    position *)
+Theorem C11_diskset_walk_is_concat_partial : forall ds f0 pos,
+  Forall sdisk_ok ds ->
+  (0 <= pos < Z.of_nat (length (set_data ds)))%Z -> (pos <= OFF_MAX)%Z ->
+  exists k d fp,
+    nth_error ds k = Some d /\
+    walk (extents_of ds f0) pos = WAt (f0 + N.of_nat k) fp /\ (0 <= fp)%Z /\
+    nth (Z.to_nat fp) (s_file d) 0 = nth (Z.to_nat pos) (set_data ds) 0.
+Proof. exact walk_concat. Qed.
+Print Assumptions C11_diskset_walk_is_concat_partial.
+
+(** past the data of the last disk the answer is KDUMP_ERR_NODATA *)
+Theorem C11_diskset_walk_past_end_partial : forall ds f0 pos,
+  ds <> [] -> Forall sdisk_ok ds ->
+  (Z.of_nat (length (set_data ds)) <= pos <= OFF_MAX)%Z ->
+  walk (extents_of ds f0) pos = WNoData.
+Proof. exact walk_past_end. Qed.
+Print Assumptions C11_diskset_walk_past_end_partial.
+
+(** a page never straddles two disks: with data areas made of whole pages,
+    all bytes of the page at a page-aligned position come from the same file,
+    contiguously (so the single [fcache_pread] of a page is right) *)
+Theorem C11_diskset_page_partial : forall P exts pos f fp i,
+  (0 < P)%Z -> Forall (ext_ok P) exts -> (0 <= pos)%Z -> (P | pos)%Z -> (0 <= i < P)%Z ->
+  (pos + i <= OFF_MAX)%Z ->
+  walk exts pos = WAt f fp -> walk exts (pos + i) = WAt f (fp + i)%Z.
+Proof. exact walk_page. Qed.
+Print Assumptions C11_diskset_page_partial.
+
+(** the extent array [open_common] builds from the headers of the disks is the
+    one the two theorems above speak about *)
+Theorem C11_diskset_assemble_partial : forall ds,
+  complete_set (headers_of ds 0) /\ assemble (headers_of ds 0) = Some (extents_of ds 0).
+Proof. exact assemble_in_order. Qed.
+Print Assumptions C11_diskset_assemble_partial.
+
+(** the files of a complete disk set (disk numbers 1..n, each once) may be
+    passed in any order: every position resolves to the same disk number and
+    the same position in that disk's file *)
+Theorem C11_diskset_any_order_partial : forall files files' pos,
+  complete_set files -> Permutation files files' -> (0 <= pos)%Z ->
+  locate files pos = locate files' pos.
+Proof. exact locate_any_order. Qed.
+Print Assumptions C11_diskset_any_order_partial.
+
+(** non-vacuity: three disks (the middle one without data), passed as 3,1,2:
+    position 2 is the first byte of disk 3 - the case [pos >= data_len] vs
+    [pos > data_len] decides *)
+Example C11_diskset_nonvacuous :
+  let files := [ {| d_num := 3; d_pos := 4096; d_len := 3 |};
+                 {| d_num := 1; d_pos := 12288; d_len := 2 |};
+                 {| d_num := 2; d_pos := 4096; d_len := 0 |} ] in
+  complete_set files /\
+  List.map (locate files) [0; 1; 2; 4; 5]%Z
+  = [Some (1%N, 12288%Z); Some (1%N, 12289%Z); Some (3%N, 4096%Z); Some (3%N, 4098%Z); None].
+Proof.
+  cbv zeta. split; [|vm_compute; reflexivity].
+  split.
+  - cbn [List.map d_num]. repeat constructor; cbn [In]; intuition discriminate.
+  - intros d [<-|[<-|[<-|[]]]]; cbn [d_num length]; split; discriminate.
+Qed.
 
 (** * Non-vacuity and the pinned tree's defect *)
 
